@@ -336,6 +336,16 @@ func genCase(r *vrun.Run, idx int) caseSpec {
 		for k := 0; k < np; k++ {
 			c.Patterns = append(c.Patterns, genValidPattern(rng, names))
 		}
+		if rng.IntN(12) == 0 {
+			// pattern sets which read the same once joined with a blank: ["a b"] and ["a", "b"] are different sets
+			l1, l2 := string(nameLetters[rng.IntN(len(nameLetters))]), string(nameLetters[rng.IntN(len(nameLetters))])
+			if rng.IntN(2) == 0 {
+				c.Patterns = []string{l1 + " " + l2}
+			} else {
+				c.Patterns = []string{l1, l2}
+			}
+			np = 0
+		}
 		if np > 0 && rng.IntN(10) == 0 {
 			at := rng.IntN(len(c.Patterns))
 			c.Patterns = append(c.Patterns[:at], append([]string{""}, c.Patterns[at:]...)...)
@@ -672,6 +682,10 @@ func runCase(r *vrun.Run, c caseSpec, scratch string) {
 	arc := filepath.Join(arcDir, c.ArcName)
 	if cls == "Zip" {
 		prim.mkdir(r, arcDir)
+		if c.Index%2 == 0 {
+			// the archive of an earlier run is already there
+			_ = afero.WriteFile(prim.base, arc, []byte("PK\x05\x06"+strings.Repeat("\x00", 18)), 0o644)
+		}
 	}
 
 	// --- the property is quantified over trees rooted at a location whose own path contains no match
